@@ -106,6 +106,7 @@ def merge(results):
                 m[kk] += v[kk]
         cells.update(r["cells"])
         digests.update(r["digests"])
+        extra["cases_beyond_distinct_cap"] = extra.get("cases_beyond_distinct_cap", 0) + r.get("digest_overflow", 0)
         for k, v in r["classes"].items():
             classes[k] = classes.get(k, 0) + v
         viol.extend(r["violations"])
